@@ -24,6 +24,10 @@ type VMLayout struct {
 	SigStart     int     `json:"sig_start"`     // offset of the first signature entry
 	BodyStartC   int     `json:"body_start_c"`  // body start = BodyStartC + BodyStartPer * signatures
 	BodyStartPer int     `json:"body_start_per"`
+	// BodyStartVar: the variable the contract multiplies the stride with, and SigCountVar: the variable it reads
+	// the signature count into (header byte 5). The body starts after the signatures that ARE there.
+	BodyStartVar string `json:"body_start_var,omitempty"`
+	SigCountVar  string `json:"sig_count_var,omitempty"`
 	Body         []Field `json:"body"`          // relative to body start
 	DoubleKeccak bool    `json:"double_keccak"` // hash = keccak(keccak(body))
 }
@@ -150,12 +154,18 @@ func ExtractRalphParseVAA(path string) (*VMLayout, error) {
 	fn := src[i : i+j]
 	L := &VMLayout{Source: path}
 	// body slice
-	m := regexp.MustCompile(`let body = byteVecSlice!\(data, (\d+) \+ signatureSize \* (\d+), size!\(data\)\)`).FindStringSubmatch(fn)
+	m := regexp.MustCompile(`let body = byteVecSlice!\(data, (\d+) \+ (\w+) \* (\d+), size!\(data\)\)`).FindStringSubmatch(fn)
 	if m == nil {
 		return nil, fmt.Errorf("body slice not recognised")
 	}
 	L.BodyStartC, _ = strconv.Atoi(m[1])
-	L.BodyStartPer, _ = strconv.Atoi(m[2])
+	L.BodyStartVar = m[2]
+	L.BodyStartPer, _ = strconv.Atoi(m[3])
+	if sc := regexp.MustCompile(`let (\w+) = u256From1Byte!\(byteVecSlice!\(data, 5, 6\)\)`).FindStringSubmatch(fn); sc != nil {
+		L.SigCountVar = sc[1]
+	} else {
+		return nil, fmt.Errorf("signature count read not recognised")
+	}
 	if !regexp.MustCompile(`let hash = keccak256!\(keccak256!\(body\)\)`).MatchString(fn) {
 		return nil, fmt.Errorf("hash rule not recognised")
 	}
